@@ -132,3 +132,36 @@ func VerifInternalAuth() {
 	vnd.Cover(err == nil && m.InternalUsers[0].User != "any", "admitted through named credentials")
 	vnd.Cover(err != nil, "rejected")
 }
+
+var verifScanActions = []conf.AuthAction{conf.AuthActionRead, conf.AuthActionPlayback, conf.AuthActionAPI}
+
+// VerifPermissionScan: the scan over a user's permission list — every permission is considered,
+// whatever precedes it (one 'any' user without IP restriction, 2..scan_perms permissions).
+func VerifPermissionScan() {
+	var vu verifUser
+	vu.u.User = "any"
+	np := 2 + vnd.Choose("nperms", vnd.Bound("scan_perms", 3)-1)
+	for i := 0; i < np; i++ {
+		p := conf.AuthInternalUserPermission{Action: verifScanActions[vnd.Choose("permAction", len(verifScanActions))]}
+		kind := vnd.Choose("permPath", 3)
+		switch kind {
+		case 1:
+			p.Path = vnd.String("permLiteral", 1)
+			vnd.Assume(p.Path[0] != '~')
+		case 2:
+			p.Path = "~" + verifPathPatterns[vnd.Choose("permRegexp", len(verifPathPatterns))]
+		}
+		vu.u.Permissions = append(vu.u.Permissions, p)
+		vu.pathKind = append(vu.pathKind, kind)
+	}
+	m := &Manager{Method: conf.AuthMethodInternal, InternalUsers: []conf.AuthInternalUser{vu.u}}
+	req := &Request{
+		Action:      verifScanActions[vnd.Choose("action", len(verifScanActions))],
+		Path:        vnd.String("path", vnd.Choose("pathlen", 3)),
+		Credentials: &Credentials{},
+		IP:          net.IP{192, 0, 2, 1},
+	}
+	_, err := m.Authenticate(req)
+	vnd.Assert((err == nil) == verifAdmits(vu, req), "a request is admitted iff some permission of the list grants the action on the path, wherever it stands in the list")
+	vnd.Cover(err == nil && len(vu.u.Permissions) > 1 && vu.u.Permissions[0].Action == req.Action && vu.pathKind[0] == 2, "admitted although the first permission is a regexp for the same action")
+}
